@@ -161,7 +161,7 @@ def do(op: dict) -> str:
             return f"error={err_class(e)}"
         attach_sink()
         SOLVERS[op["sid"]] = (kind, sv)
-        hdr = f"n={p.n_states} maxbs={op['maxbs']} dev={sv.n_devices} "
+        hdr = f"n={p.n_states} maxbs={op['maxbs']} dev={sv.n_devices} bsz={sv.batch_size} npad={sv.n_pad} "
         return hdr + f"ok thr={frac(Fraction(float(sv.conv_threshold)))} " + state_line(kind, sv, False, 0, [])
     if o == "setvalues":
         kind, sv = SOLVERS[op["sid"]]
@@ -175,7 +175,7 @@ def do(op: dict) -> str:
         try:
             sv.solve(max_iterations=op["k"])
         except Exception as e:  # noqa: BLE001
-            return f"error={err_class(e)}"
+            return f"error={err_class(e)} msg={str(e)[:60].replace(' ', '_').replace('=', ':')}"
         conv = any(("Convergence threshold reached" in m) or ("Policy converged" in m) for m in LOG)
         saves = []
         for m in LOG:
